@@ -6,6 +6,7 @@ import Ucfg.Spec.C01
 import Ucfg.Model.Ops
 import Ucfg.Spec.C03
 import Ucfg.Model.Flag
+import Ucfg.Model.Eval
 /-
   ucfgdrv: reads one protocol case per line on stdin, runs the Lean model's
   executable definitions on it and prints one JSON result line.
@@ -583,6 +584,139 @@ def runFlags (std : Stdlib) (c : Json) : R (Json × Option Json × Option String
         | some _, _ => some okOracle
   pure (model, oracle, none)
 
+def errKindJson {α : Type} (r : Outcome α) : Json :=
+  match r with
+  | .err e => Json.mkObj [("err", Json.mkObj [("reason", .str e.reason.name), ("typed", .bool true)])]
+  | .panic s => Json.mkObj [("panic", .str s)]
+  | .fuel => Json.mkObj [("fuel", .bool true)]
+  | .ok _ => .null
+
+def dataViewJson (vw : View) : Json :=
+  Json.mkObj [("ok", Json.mkObj [
+    ("dict", match dropNil (.map vw.dict) with | .map m => .mkObj (m.map (fun (k, d) => (k, dataJson d))) | _ => .mkObj []),
+    ("arr", .arr ((vw.arr.map dropNil).map dataJson).toArray)])]
+
+/-- label the dynamic values of the root and of every Env config with distinct cache ids -/
+def labelAll (root : Val) (o : Opts) : Val × Opts :=
+  let (r, n) := labelDyns root 0
+  let (envs, _) := o.env.foldl (fun (acc : List Val × Nat) e =>
+    let (e', n') := labelDyns e acc.2
+    (acc.1 ++ [e'], n')) ([], n)
+  (r, { o with env := envs })
+
+def readE (std : Stdlib) (root0 : Val) (ro0 : Opts) (rd : Json) : R Json := do
+  let (root, ro) := labelAll root0 ro0
+  let C : ECtx := ⟨ro, std⟩
+  let name := strFieldD rd "name" ""
+  let idx := intField rd "idx" (-1)
+  match strFieldD rd "r" "" with
+  | "view" => pure (match viewE C root with
+      | .ok vw => dataViewJson vw
+      | .err _ => Json.mkObj [("err", Json.mkObj [("typed", .bool true)])]
+      | r => errKindJson r)
+  | "get" =>
+    pure (match getForcedE C root name idx with
+      | .ok f =>
+        (match f.v with
+         | .prim p =>
+           let k := match strFieldD rd "type" "String" with
+             | "Bool" => GetKind.bool | "Int" => .int | "Uint" => .uint | "Float" => .float | _ => .string
+           (match getPrim std k (.prim p) with
+            | .ok o => Json.mkObj [("ok", opOutJson o)]
+            | r => errKindJson r)
+         | _ => errKindJson (Outcome.raise (α := Unit) .typeMismatch))
+      | r => errKindJson r)
+  | "has" => pure (match hasE C root name idx with | .ok b => Json.mkObj [("ok", Json.mkObj [("b", .bool b)])] | r => errKindJson r)
+  | "count" =>
+    if name == "" then pure (Json.mkObj [("ok", Json.mkObj [("i", .str (toString (root.arr.length + root.dict.length)))])])
+    else match dget root.dict name with
+      | none => pure (errKindJson (Outcome.raise (α := Unit) .missing))
+      | some v =>
+        -- CountField returns the error of value.Len as it is (not wrapped at the API boundary)
+        let rawErr {α : Type} (r : Outcome α) : Json := match r with
+          | .err e => Json.mkObj [("err", Json.mkObj [("reason", .str e.reason.name), ("typed", .bool e.typed)])]
+          | r => errKindJson r
+        pure (match runEM (do let (f, _) ← force C defaultFuel root [name] v []; pure f) with
+          | .ok f => (match valLen f.v with
+            | .ok n => Json.mkObj [("ok", Json.mkObj [("i", .str (toString n))])]
+            | r => rawErr r)
+          | r => rawErr r)
+  | "childview" =>
+    pure (match runEM (do
+        let f ← getFieldE C root name idx
+        toConfigE C defaultFuel f.home f.path [] f.v) with
+      | .ok f =>
+        -- the child handle is a config of its own tree; reads through it start at the child
+        (match f.v with
+         | .sub d a hd ha =>
+           (match (do
+               let m ← runEM (reifyDE C defaultFuel f.home [] d)
+               let l ← runEM (reifyAE C defaultFuel f.home [] a)
+               Outcome.ok ({ isDict := hd, isArray := ha, dict := m, arr := l } : View)) with
+            | .ok vw => dataViewJson vw
+            | .err _ => Json.mkObj [("err", Json.mkObj [("typed", .bool true)])]
+            | r => errKindJson r)
+         | _ => errKindJson (Outcome.raise (α := Unit) .typeMismatch))
+      | r => errKindJson r)
+  | "keys" =>
+    pure (match flattenedKeysE C 200 root [] [] root with
+      | .ok ks => Json.mkObj [("ok", Json.mkObj [("keys", .arr ((ks.toArray.qsort (· < ·)).map Json.str))])]
+      | r => errKindJson r)
+  | "diffself" =>
+    pure (match flattenedKeysE C 200 root [] [] root with
+      | .ok ks => Json.mkObj [("ok", Json.mkObj [("changed", .bool false), ("kept", .num ks.eraseDups.length)])]
+      | r => errKindJson r)
+  | r => throw s!"unknown read {r}"
+
+/-- C02/C08 "eval": create (and merge) a config with VarExp, then read it through the API -/
+def runEval (std : Stdlib) (c : Json) : R (Json × Option Json × Option String) := do
+  let o ← getOpts c "opts"
+  let d ← parseGoData ((optField c "from").getD .null)
+  let ro ← getOpts c "ropts"
+  let merges := match optField c "merges" with | some (.arr m) => m.toList | _ => []
+  let reads := match optField c "reads" with | some (.arr m) => m.toList | _ => []
+  let built : R (Except Json Val) := do
+    match newFrom o d with
+    | .ok root0 =>
+      merges.foldlM (fun (acc : Except Json Val) m => do
+        match acc with
+        | .error e => pure (.error e)
+        | .ok root =>
+          let mo ← getOpts m "opts"
+          let b ← parseGoData ((optField m "b").getD .null)
+          match cfgMerge mo root b with
+          | .ok r' => pure (.ok r')
+          | r => pure (.error (Json.mkObj [("merge", errKindJson r)]))) (.ok root0)
+    | r => pure (.error (Json.mkObj [("create", errKindJson r)]))
+  let model : Json ← match ← built with
+    | .error j => pure j
+    | .ok root => do
+      let rs ← reads.mapM (readE std root ro)
+      pure (Json.arr rs.toArray)
+  let oracle : Option Json := match optField c "impl" with
+    | none => none
+    | some impl =>
+      let n := natField impl "outcomes"
+      if n > 1 then some (failOracle s!"{n} different outcomes for identical reads (evaluation order)")
+      else match optField c "expect" with
+        | none => none
+        | some ex =>
+          -- `expect`: the outcome list the statement demands (computed by the generator from the substitution semantics)
+          let got := match (optField impl "reads").getD .null with | .arr a => a.toList | _ => []
+          let want := match ex with | .arr a => a.toList | _ => []
+          if got.length != want.length then some (failOracle "creating the config failed")
+          else
+            let bad := (got.zip want).filter (fun (g, w) =>
+              match w with
+              | .null => false                                    -- no expectation for this read
+              | _ =>
+                if (optField w "anyerr").isSome then (optField g "err").isNone
+                else g.compress != w.compress)
+            match bad with
+            | [] => some okOracle
+            | (g, w) :: _ => some (failOracle s!"a read differs from late-bound substitution: got {g.compress}, want {w.compress}")
+  pure (Json.mkObj [("reads", model), ("outcomes", .num 1)], oracle, none)
+
 def runFull (std : Stdlib) (c : Json) : R (Json × Option Json × Option String) := do
   let k ← strField c "k"
   match k with
@@ -593,6 +727,7 @@ def runFull (std : Stdlib) (c : Json) : R (Json × Option Json × Option String)
   | "conv" => runConv std c
   | "norm" => runNorm c
   | "flags" => runFlags std c
+  | "eval" => runEval std c
   | _ => do pure ((← runCase std c), none, none)
 
 partial def loop (std : Stdlib) (h : IO.FS.Stream) (out : IO.FS.Stream) : IO Unit := do
